@@ -344,7 +344,21 @@ std::optional<std::string> handle_env(std::vector<std::string> const &t)
     if (!make_in(t[1], payload(t[2]), in))
       return "bad-op";
     auto const r = fcppt::io::stream_to_string(*in.is);
-    return r.has_value() ? "some " + out_str(r.get_unsafe()) : std::string{"none"};
+    std::string const res = r.has_value() ? "some " + out_str(r.get_unsafe()) : std::string{"none"};
+    if (t[1] == "fresh" || t[1] == "eofbit" || t[1] == "failbit" || t[1] == "badbit")
+    {
+      // the wchar_t instantiation on the same text and state
+      std::string const c = payload(t[2]);
+      std::wstring wide;
+      for (unsigned char ch : c)
+        wide.push_back(static_cast<wchar_t>(ch));
+      std::wistringstream w{wide};
+      w.setstate(in.is->rdstate());
+      auto const rw = fcppt::io::stream_to_string(w);
+      if (rw.has_value() != r.has_value() || (rw.has_value() && rw.get_unsafe() != wide))
+        return "wide-disagrees";
+    }
+    return res;
   }
   if ((op == "ioget" || op == "iopeek") && t.size() == 3)
   {
@@ -549,7 +563,17 @@ std::optional<std::string> handle_env(std::vector<std::string> const &t)
   if (op == "replext" && t.size() == 3)
   {
     exact const e{payload(t[2])};
-    return "s:" + fcppt::filesystem::replace_extension(std::filesystem::path{payload(t[1])}, e.view()).string();
+    std::filesystem::path const p{payload(t[1])};
+    std::string const r = fcppt::filesystem::replace_extension(p, e.view()).string();
+    // aliasing: the new extension is a view onto the path's own storage
+    std::string const &own = p.native();
+    if (own.size() >= e.n && own.compare(own.size() - e.n, e.n, e.s_view()) == 0)
+    {
+      std::string const r2 = fcppt::filesystem::replace_extension(p, std::string_view{own}.substr(own.size() - e.n)).string();
+      if (r2 != r)
+        return "alias-fail s:" + r + " s:" + r2;
+    }
+    return "s:" + r;
   }
   if (op == "stripprefix" && t.size() == 3)
   {
@@ -558,7 +582,10 @@ std::optional<std::string> handle_env(std::vector<std::string> const &t)
     // documented: undefined unless `prefix` is a prefix of `path`; the call is made whenever it stays inside the path
     if (fcppt::filesystem::num_subpaths(prefix) > fcppt::filesystem::num_subpaths(p))
       return "unsafe";
-    return "s:" + fcppt::filesystem::strip_prefix(prefix, p).string();
+    std::string const r = fcppt::filesystem::strip_prefix(prefix, p).string();
+    if (prefix.native() == p.native() && fcppt::filesystem::strip_prefix(p, p).string() != r) // the same object twice
+      return "alias-fail";
+    return "s:" + r;
   }
   // ---- environment, arguments, errno, time, names -----------------------------------------------------------------
   if (op == "getenv" && t.size() == 2)
